@@ -34,9 +34,26 @@ def gen_case(seed, tier="quick"):
 
 
 def run_case(case):
+    if case.get("fresh_leg"):
+        return _run_fresh(case)
     # hermetic: every case starts from the same process image (see core/hermetic.py)
     from ..core.hermetic import hermetic
     return hermetic(trainsim.run_c19)(case)
+
+
+def _run_fresh(case):
+    """A replayable fresh-interpreter leg: case['fresh_leg'] = [k, hook]."""
+    from ..geosim import viol
+    k, hook = case["fresh_leg"]
+    base = {kk: v for kk, v in case.items() if kk not in ("fresh_leg", "expect", "minimised_from")}
+    res, cmpd = _fresh_leg((base, k, hook))
+    out = [viol("C19", "resume-fresh-interpreter", what.split(":")[0], "", crash=[k, hook], what=what[:200])
+           for prop, what in res if prop == "C19"]
+    rec = {"violations": out, "stats": {"resumes_compared": cmpd}, "steps": 0, "rows": None,
+           "features": {"cell": "fresh-interpreter", "faulty": True},
+           "sim": {"fired": {"crash:" + hook: 1}, "digest": None, "draw_calls": 0, "ops": 0, "site_calls": {}},
+           "digest_extra": [len(out), cmpd], "nontrivial": cmpd > 0, "key": "fresh|%s|%s" % (k, hook), "outcome": [w for _, w in res]}
+    return rec
 
 
 def shrink(case):
@@ -119,7 +136,7 @@ def pre(tier, base):
             compared += cmpd
             for prop, what in res:
                 if prop == "C19":
-                    c2 = dict(case, crashes=[[[k, hook]]])
+                    c2 = dict(case, crashes=[[[k, hook]]], fresh_leg=[k, hook])
                     violations.append((viol("C19", "resume-fresh-interpreter", what.split(":")[0], "", crash=[k, hook], what=what[:200]), c2))
                 elif prop == "HARNESS":
                     print("HARNESS-ERROR: " + what)
